@@ -226,7 +226,7 @@ def run(ctx):
     BOXSINK = "metrique_writer_core::sink::BoxEntrySink"
     lookup_defs = {b_.def_ for b_ in F.all_bodies(SM) if b_.kind in ("Fn", "AssocFn") and not ((b_.impl or {}).get("trait")) and not (b_.d.get("inputs") or []) and b_.d.get("output") == "core::option::Option<%s>" % BOXSINK}
     rt_defs = {b_.def_ for b_ in F.all_bodies(SM) if b_.kind in ("Fn", "AssocFn") and not (b_.d.get("inputs") or []) and "HashMap<tokio::runtime::id::Id" in (b_.d.get("output") or "")}
-    is_rt = lambda c: c.is_("tokio::runtime::Handle::try_current") or c.def_ in rt_defs
+    is_rt = lambda c: c.is_("tokio::runtime::Handle::try_current") or (c.name == "try_current" and (c.def_ or "").startswith("tokio::runtime")) or c.def_ in rt_defs
     is_test_lookup = lambda c: c.def_ in lookup_defs
     is_read = lambda c: c.is_("std::sync::poison::rwlock::RwLock::<T>::read", "std::sync::rwlock::RwLock::<T>::read")
 
@@ -406,6 +406,25 @@ def run(ctx):
                     if subs and c.args:
                         o = Prov(b).operand(c.args[0])
                         okc = okc or any(x[0] == "agg" and x[2] == "None" for x in o)
+                # ... or (a dedicated clearing function) stores None into the thread-local cell itself, on every path
+                def _stores_none(bd, depth=2):
+                    sites = []
+                    for i_ in bd.live_blocks():
+                        for st_ in bd.stmts(i_):
+                            if st_["k"] == "assign" and [e[0] for e in st_["lhs"].get("p", [])] == ["deref"] and \
+                                    "Option<metrique_writer_core::sink::BoxEntrySink>" in bd.local_ty(st_["lhs"]["l"]):
+                                o_ = Prov(bd).operand(st_["rv"]["op"]) if st_["rv"]["k"] == "use" else {("agg", st_["rv"].get("adt"), st_["rv"].get("variant"))}
+                                if o_ and all(x[0] == "agg" and x[2] == "None" for x in o_ if x[0] != "via"):
+                                    sites.append(i_)
+                                else:
+                                    return False          # may store something else
+                    if sites:
+                        return bd.must_pass(sites)
+                    if depth > 0:
+                        inner = [c_.bb for c_ in bd.calls() if any(_stores_none(x_, depth - 1) for x_ in list(local_callee_bodies(F, c_)) + list(closure_args(F, c_)) if x_.crate == SM)]
+                        return bool(inner) and bd.must_pass(inner)
+                    return False
+                okc = okc or _stores_none(b)
                 ctx.check(okc, "R17.5", fnkey(b) + "#clears-thread-local", loc(b), "thread-local guard's clear fn does not reset the test sink to None")
     ctx.floor("R17.5", "clear fns handed to the thread-local test-sink guard", nclear, 1)
     # compile-fail witnesses (type-level part of the property), discharged by rustc's type checker
